@@ -207,6 +207,9 @@ pub struct PeerPlan {
     /// v5: PUBREC carries the reason code of `ack_codes` too (>= 0x80: the peer refuses the publish); a
     /// PUBREL that arrives for a refused publish is answered with PUBCOMP 0x92 (identifier not found)
     pub refuse_pubrec: bool,
+    /// MQTT 5: the peer's acknowledgements carry optional properties - 0 none; 1 user property then reason
+    /// string; 2 reason string then user property; 3 user property, reason string, user property
+    pub ack_props_mode: u8,
     /// use the long form for v5 acks
     pub long_acks: bool,
     /// server roles: do not send CONNECT first (the script starts with some other packet)
